@@ -250,7 +250,42 @@ def audit(prop, theorems):
 
 
 # --------------------------------------------------------------------------- correspondence
-def run_harness(exe, ops, workdir, tag, env_extra=None, timeout=3600):
+def run_variant(exe, ops, workdir, tag, variant):
+    """a variant = the same operations under a perturbation (C15): another order (`perm_seed`), residue painted on
+    stack and heap (`env`), or under valgrind memcheck (`valgrind`). Results are mapped back to the original order."""
+    order = list(range(len(ops)))
+    if variant.get("perm_seed") is not None:
+        random.Random(variant["perm_seed"]).shuffle(order)
+    pops = [ops[i] for i in order]
+    wrapper = None
+    vglog = None
+    if variant.get("valgrind"):
+        vglog = os.path.join(workdir, f"{tag}.vglog")
+        wrapper = ["valgrind", "--quiet", "--error-exitcode=0", "--undef-value-errors=yes", "--leak-check=no",
+                   "--track-origins=no", f"--log-file={vglog}"]
+    res, mons, crashes = run_harness(exe, pops, workdir, tag, env_extra=variant.get("env"), wrapper=wrapper)
+    if vglog and os.path.exists(vglog):
+        cur = None
+        seen = set()
+        for ln in open(vglog, errors="replace"):
+            m = re.search(r"VHOP (\d+)", ln)
+            if m:
+                cur = int(m.group(1)) - 1
+                continue
+            if cur is not None and ("uninitialised" in ln or "Invalid read" in ln or "Invalid write" in ln):
+                key = (cur, "uninit" if "uninitialised" in ln else "invalid")
+                if key not in seen and 0 <= cur < len(pops):
+                    seen.add(key)
+                    mons.append((cur, "C15", "valgrind memcheck: " + re.sub(r"^==\d+== ", "", ln.strip())))
+    results = [None] * len(ops)
+    for j, i in enumerate(order):
+        results[i] = res[j]
+    mons = [(order[j], p_, t) for (j, p_, t) in mons if j < len(order)]
+    crashes = [(order[j], k, e) for (j, k, e) in crashes if j < len(order)]
+    return results, mons, crashes
+
+
+def run_harness(exe, ops, workdir, tag, env_extra=None, timeout=3600, wrapper=None):
     """returns (result_lines aligned with ops, monitor lines [(opidx, text)], crashes [(opidx, stderr)])"""
     results = [None] * len(ops)
     monitors = []
@@ -264,7 +299,7 @@ def run_harness(exe, ops, workdir, tag, env_extra=None, timeout=3600):
     restarts = 0
     while start < len(ops):
         inp = "\n".join(ops[start:]) + "\n"
-        p = subprocess.run([exe], input=inp, capture_output=True, text=True, env=env, timeout=timeout)
+        p = subprocess.run((wrapper or []) + [exe], input=inp, capture_output=True, text=True, env=env, timeout=timeout)
         idx = start - 1
         for ln in p.stdout.splitlines():
             if ln.startswith("!"):
@@ -431,8 +466,16 @@ def check_property(prop, tier, seed):
     distinct = set()
     known = [k for k in load_known() if k.get("property") == prop and k.get("status") == "known"]
     known_seen = {}
+    runs = []
     for cfg, exe in exes.items():
-        impl, monitors, crashes = run_harness(exe, ops, WORK, f"{prop}_{cfg}")
+        for vi, variant in enumerate(spec.variants(cfg, tier)):
+            runs.append((cfg if not variant else f"{cfg}+{variant.get('name', vi)}", exe, variant))
+    stats["runs"] = [r[0] for r in runs]
+    for cfg, exe, variant in runs:
+        if variant:
+            impl, monitors, crashes = run_variant(exe, ops, WORK, f"{prop}_{cfg}".replace("+", "_"), variant)
+        else:
+            impl, monitors, crashes = run_harness(exe, ops, WORK, f"{prop}_{cfg}")
         for (i, mprop, text) in monitors:
             if mprop != prop:
                 continue
